@@ -184,7 +184,7 @@ def run(ctx):
                 bad.append(("unsorted-archive-list", "list_archives can return an unsorted list", None))
         r = F.fn("WalArchiveRecovery::recover_all")
         la = one(r, r"WalArchiveRecovery::list_archives$")
-        nx = [c for c in r.find_calls(r"Iterator>::next$")]
+        nx = [c for c in for_headers(r)]
         it_ok = any(any(x[0] == "call" and "list_archives" in x[1] for x in r.origins(c.args[0], transparent=NEXT_TRANSPARENT)) for c in nx)
         if not it_ok:
             bad.append(("recover-other-order", "recover_all does not iterate the list returned by list_archives", None))
